@@ -67,6 +67,8 @@ class DstWorld(World):
         elif c["shape"] == "dir_existing":
             with open(core.dest_path_resolved(c), "wb") as f:
                 f.write(b"\xdd" * (c["size"] + 3))
+        elif c["shape"] == "dir_dir":
+            os.makedirs(core.dest_path_resolved(c), exist_ok=True)
         st.D = core.make_dest(c, vfs=FaultyFilestore())
         self.init_model(st)
         return st
